@@ -132,7 +132,9 @@ public:
     mutex.lock();
     bool ret = false;
 
-    if (x == *orderedSet.begin()) {
+    if (orderedSet.empty()) {
+      ret = false;
+    } else if (x == *orderedSet.begin()) {
       orderedSet.erase(orderedSet.begin());
       ret = true;
     } else {
